@@ -1,3 +1,4 @@
+import NgoVerif.Proofs.C16stm
 import NgoVerif.Proofs.C16heads
 import NgoVerif.Generated.Tables
 import NgoVerif.Model.Projection
@@ -217,5 +218,35 @@ body, or a new rule whose head is a plain positive atom -/
 theorem C16_heads_kept (prg : Prog) (inputs : List Pred) (out : Prog) (h : projection prg inputs = .ok out) :
     ∀ s ∈ out, ∃ o ∈ prg, Proofs.C16heads.FromStm o s :=
   Proofs.C16heads.projection_heads prg inputs out h
+
+/-! ## end to end for typed programs and statements, from an executable check (`Proofs/C16stm.lean`)
+
+`pre ++ [head :- body.] ++ post` and `pre ++ [aux(vs) :- new. ; head :- rest, aux(vs).] ++ post`, every statement under
+its OWN global variables (`Sem/GCongr.lean` bridges the three different sets), standard head semantics, any parameter
+choice with persistent aggregates.  `splitCheck` / `ctxCheck` are what the driver evaluates on every split the real
+pass performs (anonymous variables renamed apart by the harness). -/
+open Proofs.C16stm in
+theorem C16_check_sound (S : Split) (pre post : Prog) (h1 : splitCheck S = true) (h2 : ctxCheck S pre post = true) :
+    Ok S ∧ CtxOk S pre post :=
+  ⟨splitCheck_sound S h1, ctxCheck_sound S pre post h2⟩
+
+open Proofs.C16stm in
+/-- **every answer set of the source extends to an answer set of the split program** -/
+theorem C16_split_sound_prog (P : Sem.Params) (hp : Sem.AggPersistent P) (S : Split) (pre post : Prog)
+    (h1 : splitCheck S = true) (h2 : ctxCheck S pre post = true) (T : Sem.Interp)
+    (hT : Sem.Stable (Sem.stdParams P) (pre ++ S.orig :: post) T) :
+    Sem.Stable (Sem.stdParams P) (pre ++ S.auxRule :: S.updRule :: post)
+      (Proofs.C16sem.extend (Sem.stdParams P) (fun v => v ∈ S.G0) S.syn T) :=
+  split_sound_prog P hp S (splitCheck_sound S h1) pre post (ctxCheck_sound S pre post h2) T hT
+
+open Proofs.C16stm in
+/-- **every answer set of the split program is such an extension**: the correspondence is one-to-one and the source
+atoms are untouched -/
+theorem C16_split_complete_prog (P : Sem.Params) (hp : Sem.AggPersistent P) (S : Split) (pre post : Prog)
+    (h1 : splitCheck S = true) (h2 : ctxCheck S pre post = true) (T' : Sem.Interp)
+    (hT' : Sem.Stable (Sem.stdParams P) (pre ++ S.auxRule :: S.updRule :: post) T') :
+    ∃ T, Sem.Stable (Sem.stdParams P) (pre ++ S.orig :: post) T ∧
+      ∀ a, T' a ↔ Proofs.C16sem.extend (Sem.stdParams P) (fun v => v ∈ S.G0) S.syn T a :=
+  split_complete_prog P hp S (splitCheck_sound S h1) pre post (ctxCheck_sound S pre post h2) T' hT'
 
 end NgoVerif
